@@ -238,6 +238,23 @@ pub fn run(o: &Opts) -> Report {
                             push(&mut world, &mut lines, &mut impl_out, &mut expect, "hflush 1".into(), Some("ok".into()));
                             // data flushed through a still-open handle is visible to new readers
                             push(&mut world, &mut lines, &mut impl_out, &mut expect, format!("op {} read {}", t, enc_str(wpath)), Some(format!("ok {}", enc_content(wc.get_ref()))));
+                            // in-memory backends: now and then the file is REPLACED by another complete session
+                            // (longer than what this handle has flushed) while this handle stays open; whatever
+                            // the handle publishes later — at its next flush, at its drop — is exactly its own
+                            // buffer, never a mixture with the other session's bytes
+                            if !phys_backed && rng.chance(1, 4) {
+                                let mut other: Vec<u8> = (0..(wc.get_ref().len() + 1 + rng.below(12))).map(|i| b'A' + (i % 23) as u8).collect();
+                                other.truncate(20_000);
+                                push(&mut world, &mut lines, &mut impl_out, &mut expect, format!("op {} write {} {}", t, enc_str(wpath), enc_bytes(&other)), Some("ok".into()));
+                                push(&mut world, &mut lines, &mut impl_out, &mut expect, format!("op {} read {}", t, enc_str(wpath)), Some(format!("ok {}", enc_content(&other))));
+                                if rng.chance(1, 2) {
+                                    let tail: Vec<u8> = vec![b'z'; 1 + rng.below(5)];
+                                    let r = wc.write(&tail);
+                                    push(&mut world, &mut lines, &mut impl_out, &mut expect, format!("hwrite 1 {}", enc_bytes(&tail)), Some(enc_io_res(&r)));
+                                }
+                                push(&mut world, &mut lines, &mut impl_out, &mut expect, "hflush 1".into(), Some("ok".into()));
+                                push(&mut world, &mut lines, &mut impl_out, &mut expect, format!("op {} read {}", t, enc_str(wpath)), Some(format!("ok {}", enc_content(wc.get_ref()))));
+                            }
                             // patch in place right after a flush: seek back k bytes and overwrite exactly
                             // k bytes, so that length AND position are what they were at the flush;
                             // then flush again (or leave it to the drop)
